@@ -154,14 +154,20 @@ let check inp obs =
             let wb = (match s_best_hash !s with Some h -> id_of h | None -> "none") in
             if best <> wb then note k (Printf.sprintf "BestBlockHash=%s spec=%s" best wb);
             List.iter2 (fun kk e ->
-                let want = xs kk ^ "=" ^ str_outcome id_of (s_hash_by_number !s (n_of_int kk)) in
+                let w = s_hash_by_number !s (n_of_int kk) in
+                let want = xs kk ^ "=" ^ str_outcome id_of w in
+                tag ("bynum-" ^ (match w with Ok _ -> "ok" | o -> str_outcome (fun _ -> "ok") o));
                 if e <> want then note k (Printf.sprintf "GetHashByNumber %s spec %s" e want))
               nums (split ',' byn);
             List.iter2 (fun kk e ->
                 match split '=' e with
                 | [_; l] ->
-                  if l = "panic" || not (check_at_number !s (n_of_int kk) (parse_list '/' l)) then
+                  let pl = if l = "panic" then [] else parse_list '/' l in
+                  if l = "panic" || not (check_at_number !s (n_of_int kk) pl) then
                     note k (Printf.sprintf "GetHashesAtNumber %s" e)
+                  else if not (check_at_number_full !s (n_of_int kk) pl) then
+                    note k (Printf.sprintf "GetHashesAtNumber %s does not list every held block with that number" e);
+                  tag (match List.length pl with 0 -> "atnum-0" | 1 -> "atnum-1" | _ -> "atnum-2+")
                 | _ -> note k "atnum-shape")
               nums (split ',' atn)
           | _ -> note k "snapshot-shape"
@@ -177,12 +183,14 @@ let check inp obs =
                tag ("isdesc-" ^ w);
                if isd <> w then note k (Printf.sprintf "IsDescendantOf(%s,%s)=%s spec=%s" (id_of a) (id_of b) isd w);
                let w = str_outcome id_of (s_lca !s a b) in
+               tag ("lca-" ^ (match s_lca !s a b with Ok x -> if x = a || x = b then "ok-endpoint" else "ok-proper" | _ -> w));
                if lca <> w then note k (Printf.sprintf "LowestCommonAncestor(%s,%s)=%s spec=%s" (id_of a) (id_of b) lca w);
                let r = parse_outcome_list rng in
-               tag (match r with Ok _ -> "range-ok" | Err _ -> "range-err" | _ -> "range-panic");
+               tag (match r with Ok _ -> "range-ok" | Err c -> "range-e" ^ string_of_int (int_of_nat c) | _ -> "range-panic");
                if not (check_range !s a b r) then
                  note k (Printf.sprintf "Range(%s,%s)=%s is not the parent-linked chain" (id_of a) (id_of b) rng);
                let r = parse_outcome_list rim in
+               tag (match r with Ok _ -> "rim-ok" | Err c -> "rim-e" ^ string_of_int (int_of_nat c) | _ -> "rim-panic");
                if not (check_range_in_memory !s a b r) then
                  note k (Printf.sprintf "RangeInMemory(%s,%s)=%s is not the parent-linked chain" (id_of a) (id_of b) rim);
                if not (check_descendants !s a (parse_outcome_list desc)) then
